@@ -242,13 +242,23 @@ def c18(tier, seed):
 
 @prop("C15")
 def c15(tier, seed):
-    return _simple_api("C15", tier, seed, "operations",
-                       "random sequences (length 2..40) over 16 operation kinds - API encrypt (echo on/off), decrypt/verify of genuine, "
-                       "boundary-length, wrong-key, tampered, truncated, garbage, empty and wrong-mode files, and the getopt path "
-                       "(encrypt/decrypt/verify/parse failures) - with T, modes and sizes varying between consecutive operations; each "
-                       "operation's (result, output hash) in the one-process run is compared with the same operation executed alone in a "
-                       "fresh process image; after every operation the live-buffer counter must be 0 and every buffer-group set-up "
-                       "event must show turn==0/over==false; distinct = (kind, previous kind, position) classes", 3000, stall_s=120.0)
+    chk = Check("C15", tier, seed)
+    chk.assumptions = ASSUME_API + ["the fresh-process oracle is a child forked from a driver that has never run product code"]
+    C, D, S = {}, {}, []
+    # ASan+UBSan build (fills fresh heap memory with a pattern) and a plain build (fresh heap is zero, recycled heap is
+    # not): state leaking through recycled memory only differs between a sequence and a fresh process in the latter
+    for san in ("asan", "plain"):
+        c, d, s = apiprops.run_api(chk, "C15", [(4, 4)], san=san, stall_s=120.0)
+        _acc(C, c); _acc(D, d); S += s[:3]
+    extra = dict(counters=C, distinct_by_kind=D, builds=["asan+ubsan", "plain -O1"])
+    return chk.finish(C.get("operations", 0), D.get("class", 0),
+                      "random sequences (length 2..40) over 16 operation kinds - API encrypt (echo on/off), decrypt/verify of genuine, "
+                      "boundary-length, wrong-key, tampered, truncated, garbage, empty and wrong-mode files, and the getopt path "
+                      "(encrypt/decrypt/verify/parse failures) - with T, modes and sizes varying between consecutive operations; each "
+                      "operation's (result, output hash) in the one-process run is compared with the same operation executed alone in a "
+                      "fresh process image; after every operation the live-buffer counter must be 0 and every buffer-group set-up "
+                      "event must show turn==0/over==false; run under an ASan+UBSan build and under a plain build; distinct = (kind, "
+                      "previous kind, position) classes", S, extra, min_evaluations=3000)
 
 
 import schedprops  # noqa: E402
